@@ -156,6 +156,19 @@ func (s *udpSock) close() bool {
 	return true
 }
 
+// trySend is send behind the write-fault hook of the world (node-side sockets only).
+func (s *udpSock) trySend(to Addr, p []byte) error {
+	if hook := s.w.UDPWriteHook; hook != nil && s.node {
+		if err := hook(s.port, to.Port, p); err != nil {
+			dsim.Probe("fault:write-error")
+			rec("net", s.name+" write-fault", int64(s.id), int64(to.Port))
+			return err
+		}
+	}
+	s.send(to, p)
+	return nil
+}
+
 // send puts a datagram on the simulated network (caller is the released task).
 func (s *udpSock) send(to Addr, p []byte) {
 	w := s.w
@@ -353,7 +366,9 @@ func (c *UDPConn) Write(p []byte) (int, error) {
 	if !wdl.IsZero() && !time.Now().Before(wdl) {
 		return 0, timeoutError("write", "udp")
 	}
-	c.s.send(c.s.remote, p)
+	if err := c.s.trySend(c.s.remote, p); err != nil {
+		return 0, err
+	}
 	return len(p), nil
 }
 
@@ -569,7 +584,9 @@ func (c *pionConn) Write(p []byte) (int, error) {
 	if c.l.s.isClosed() {
 		return 0, &net.OpError{Op: "write", Net: "udp", Err: errClosed}
 	}
-	c.l.s.send(c.remote, p)
+	if err := c.l.s.trySend(c.remote, p); err != nil {
+		return 0, err
+	}
 	return len(p), nil
 }
 
@@ -689,7 +706,9 @@ func (c *PacketConn) WriteTo(p []byte, addr net.Addr) (int, error) {
 	if !wdl.IsZero() && !time.Now().Before(wdl) {
 		return 0, timeoutError("write", "udp")
 	}
-	c.s.send(Addr{"udp", ua.IP.String(), ua.Port}, p)
+	if err := c.s.trySend(Addr{"udp", ua.IP.String(), ua.Port}, p); err != nil {
+		return 0, err
+	}
 	return len(p), nil
 }
 
